@@ -53,6 +53,10 @@ func canonD(v ssa.Value, d int) string {
 			as = append(as, canonD(a, d+1))
 		}
 		name := calleeKey(&x.Call)
+		if name != "" && x.Call.IsInvoke() {
+			// a devirtualised interface call: the receiver is an argument like in the direct call
+			as = append([]string{canonD(x.Call.Value, d+1)}, as...)
+		}
 		if name == "" {
 			if b, ok := x.Call.Value.(*ssa.Builtin); ok {
 				name = b.Name()
@@ -144,6 +148,14 @@ func effects(f *ssa.Function) []string {
 			if inCycle(x.Block()) {
 				lp = " [loop]"
 			}
+			// a value merged from several branches (a phi outside any loop) is one effect per incoming value: the
+			// same function written with one store per branch reads the same
+			if ph, ok := strip(x.Val).(*ssa.Phi); ok && !inCycle(ph.Block()) {
+				for _, e := range ph.Edges {
+					out = append(out, "store "+canonAddr(x.Addr, 0)+" = "+canon(e)+lp)
+				}
+				return
+			}
 			out = append(out, "store "+canonAddr(x.Addr, 0)+" = "+canon(x.Val)+lp)
 		case *ssa.Return:
 			var rs []string
@@ -162,11 +174,59 @@ func conds(f *ssa.Function) []string {
 	var out []string
 	for _, b := range f.Blocks {
 		if c := edgeCond(b, 0); c != nil {
-			out = append(out, canon(c.If.Cond))
+			out = append(out, normCondText(canon(c.If.Cond)))
 		}
 	}
 	sort.Strings(out)
 	return uniq(out)
+}
+
+// normCondText renders a branch condition up to polarity and direction: `a >= b` and `!(a < b)` read "(a<b)",
+// `a > b` reads "(b<a)", `a != b` reads "(a==b)" with the operands ordered. (The set of conditions of a function
+// does not say which branch does what; the effects do.) It works on the canonical text so that the reviewed
+// tables, written before conditions were normalised, are read the same way.
+func normCondText(c string) string {
+	for strings.HasPrefix(c, "!") {
+		c = c[1:]
+	}
+	if len(c) < 2 || c[0] != '(' || c[len(c)-1] != ')' {
+		return c
+	}
+	in := c[1 : len(c)-1]
+	depth := 0
+	for i := 0; i < len(in); i++ {
+		switch in[i] {
+		case '(', '[':
+			depth++
+		case ')', ']':
+			depth--
+		}
+		if depth != 0 {
+			continue
+		}
+		for _, op := range []string{"==", "!=", "<=", ">=", "<<", ">>", "<", ">"} {
+			if !strings.HasPrefix(in[i:], op) {
+				continue
+			}
+			if op == "<<" || op == ">>" {
+				i++
+				break
+			}
+			a, b := in[:i], in[i+len(op):]
+			switch op {
+			case "<", ">=":
+				return "(" + a + "<" + b + ")"
+			case ">", "<=":
+				return "(" + b + "<" + a + ")"
+			default:
+				if b < a {
+					a, b = b, a
+				}
+				return "(" + a + "==" + b + ")"
+			}
+		}
+	}
+	return c
 }
 
 // checkShape compares effects+conditions of fn with the reviewed shape.
@@ -179,6 +239,11 @@ func checkShape(r *Run, p *Program, rule, key string, want []string, what, conse
 	got := append(effects(f), prefixAll("if ", conds(f))...)
 	sort.Strings(got)
 	w := append([]string{}, want...)
+	for i, x := range w {
+		if strings.HasPrefix(x, "if ") {
+			w[i] = "if " + normCondText(strings.TrimPrefix(x, "if "))
+		}
+	}
 	sort.Strings(w)
 	gm, wm := map[string]bool{}, map[string]bool{}
 	for _, g := range got {
